@@ -47,7 +47,11 @@ var typeStems = []string{"Alpha", "Bravo", "Cargo", "Delta", "Ember", "Flint", "
 var fieldStems = []string{"amber", "birch", "cedar", "dune", "elm", "fern", "glade", "heath", "iris", "juniper", "kelp", "larch", "moss", "nettle", "oak", "pine", "quartz", "reed", "sage", "thyme", "umber", "vine", "willow", "yarrow", "zinnia",
 	"first_name", "user_id", "homeURL", "http_port", "x", "k2", "maxQPS", "node_ip", "RawData", "Snake_Mixed"}
 var itemStems = []string{"RED", "GREEN", "BLUE", "DARK_RED", "Cyan", "magenta", "light_blue", "X1", "NONE", "MAX_VALUE", "lowerCamel", "UpperCamel"}
-var fileStems = []string{"apple", "banana", "cherry", "dates", "elder", "figs", "grape", "hazel"}
+var fileStems = []string{"apple", "banana", "cherry", "dates", "elder", "figs", "grape", "hazel",
+	// legal file names whose Go package is called like a local variable of the generated code or like
+	// a package the generated code imports (F24, F26, F27)
+	"v", "err", "fmt", "init", "x", "i", "w", "sr", "sw", "rhs", "lhs", "result", "success", "e", "value", "key", "ok", "text", "enc",
+	"strings", "errors", "bytes", "wire", "stream", "ptr", "math", "strconv", "s", "t", "d", "f", "k", "o", "l", "m"}
 var funcStems = []string{"getThing", "put", "list_all", "remove", "ping", "compute", "fetchURL", "do_it"}
 
 var hostileTypes = []string{"String", "Error", "ToWire", "FromWire", "Equals", "Ptr", "Type", "Value", "List_X", "ListX", "HTTPServer", "HttpServer", "Http_Server", "Foo_Bar", "FooBar", "Default_Foo", "Foo", "Foo_Values", "MarshalLogObject", "Svc_Do_Args", "Svc_Do_Result", "Svc_Do_Helper", "ThriftModule", "Map_String_String", "MapStringString", "Enum", "Struct", "Reader", "Writer", "Wire", "Stream", "Errors", "Fmt", "ID", "Id", "URL", "Url", "lowercase", "x", "X", "T", "Interface"}
@@ -157,6 +161,10 @@ func GenProgram(t *rapid.T, o *GenOpts) *Program {
 	g.p.Files = files
 	if !o.UniqueNames && nf >= 2 && g.chance(1, 3, "cluster") {
 		g.clusterName = fmt.Sprintf("Shared%d", g.intn(1, 99, "cluster_n"))
+		if g.chance(1, 3, "cluster_native") {
+			// a custom type called like the mangled name of a native type (F25)
+			g.clusterName = rapid.SampledFrom([]string{"String", "Binary", "Bool", "Double", "Byte", "I16", "I32", "I64"}).Draw(g.t, "cluster_native_name")
+		}
 	}
 	// build from the leaves: file i may include files j > i
 	defsOf := map[string][]*Def{}
@@ -386,7 +394,10 @@ func (g *gctx) genFile(f *File) {
 // several same-named types of different packages apart.
 func (g *gctx) genCluster(f *File, add func(*Def)) {
 	own := &Def{Kind: DStruct, Name: g.clusterName}
-	switch g.intn(0, 3, "cluster_kind") {
+	switch g.intn(0, 4, "cluster_kind") {
+	case 4:
+		own.Kind = DException
+		own.Fields = []*Field{{ID: 1, Name: "reason", Type: &Type{K: TString}, Req: "optional"}}
 	case 0:
 		own.Kind = DEnum
 		own.Items = []EnumItem{{Name: "FIRST", Value: 0}, {Name: "SECOND", Value: 1}}
@@ -428,7 +439,27 @@ func (g *gctx) genCluster(f *File, add func(*Def)) {
 		user.Fields = append(user.Fields, &Field{ID: id, Name: fmt.Sprintf("shared%d", id), Type: ft, Req: "optional"})
 		id++
 	}
+	// the native type of the same mangled name, in the same containers
+	if nk, ok := map[string]string{"String": TString, "Binary": TBinary, "Bool": TBool, "Double": TDouble, "Byte": TI8, "I16": TI16, "I32": TI32, "I64": TI64}[g.clusterName]; ok {
+		user.Fields = append(user.Fields,
+			&Field{ID: id, Name: fmt.Sprintf("native%d", id), Type: &Type{K: TList, Elem: &Type{K: nk}}, Req: "optional"},
+			&Field{ID: id + 1, Name: fmt.Sprintf("native%d", id+1), Type: &Type{K: TMap, Key: &Type{K: TString}, Val: &Type{K: nk}}, Req: "optional"},
+			&Field{ID: id + 2, Name: fmt.Sprintf("native%d", id+2), Type: &Type{K: TList, Elem: &Type{K: TList, Elem: &Type{K: nk}}}, Req: "optional"})
+	}
 	add(user)
+	// one function throwing every visible exception of the shared name (different types, same name)
+	if g.o.Services {
+		fn := &Func{Name: "raiseShared"}
+		for _, d := range g.pool {
+			if d.Name == g.clusterName && d.Kind == DException {
+				fn.Throws = append(fn.Throws, &Field{ID: len(fn.Throws) + 1, Name: fmt.Sprintf("ex%d", len(fn.Throws)+1), Type: &Type{K: TRef, Ref: &Ref{File: d.File, Name: d.Name}}})
+			}
+		}
+		if len(fn.Throws) > 0 {
+			g.n++
+			add(&Def{Kind: DService, Name: fmt.Sprintf("SvcShared%d", g.n), Funcs: []*Func{fn}})
+		}
+	}
 }
 
 func (g *gctx) genEnum() *Def {
@@ -923,6 +954,22 @@ func (g *gctx) genConstDef() *Def {
 	}
 	g.n++
 	name := fmt.Sprintf("%s_%d", rapid.SampledFrom([]string{"DEFAULT", "kMax", "some_const", "LIMIT_VALUE", "Answer"}).Draw(g.t, g.label("cname")), g.n)
+	if g.chance(1, 3, "cname_oneword") {
+		// one word without digits or underscores: MAXQK, Fallbackqk, limitqk (the Go name of a
+		// constant that is a single ALL-CAPS word follows a rule of its own)
+		suffix := ""
+		for k := g.n; k > 0; k /= 26 {
+			suffix += string(rune('a' + k%26))
+		}
+		switch g.intn(0, 2, "cname_style") {
+		case 0:
+			name = rapid.SampledFrom([]string{"MAX", "DEFAULT", "FALLBACK"}).Draw(g.t, g.label("cname1")) + strings.ToUpper(suffix)
+		case 1:
+			name = rapid.SampledFrom([]string{"Fallback", "Limit"}).Draw(g.t, g.label("cname2")) + suffix
+		default:
+			name = rapid.SampledFrom([]string{"limit", "maxQPS"}).Draw(g.t, g.label("cname3")) + suffix
+		}
+	}
 	d := &Def{Kind: DConst, Name: name, Type: t, Value: v, File: g.file.Path}
 	g.consts = append(g.consts, d)
 	return d
